@@ -6,3 +6,4 @@ pub mod util;
 
 pub mod c01;
 pub mod c03;
+pub mod c43;
